@@ -82,6 +82,18 @@ Section GEN.
   Proof. symmetry. apply map_rev. Qed.
 End GEN.
 
+(* a fold over the SAME list whose step commutes with a renaming of the state *)
+Lemma fold_left_same {A S S' : Type} (R : S -> S') (step : S -> A -> S) (step' : S' -> A -> S') :
+  (forall a x, step' (R a) x = R (step a x)) -> forall l a a', a' = R a -> fold_left step' l a' = R (fold_left step l a).
+Proof. intros H l. induction l as [|x l IH]; intros a a' ->; simpl; [reflexivity|]. rewrite H. apply IH. reflexivity. Qed.
+
+(* [match l with [] => a | _ => b end] as a test that only looks at emptiness *)
+Definition is_nil {X} (l : list X) : bool := match l with [] => true | _ => false end.
+Lemma match_nil {X Y} (l : list X) (a b : Y) : match l with [] => a | _ :: _ => b end = if is_nil l then a else b.
+Proof. destruct l; reflexivity. Qed.
+Lemma is_nil_map {X Y} (g : X -> Y) l : is_nil (map g l) = is_nil l.
+Proof. destruct l; reflexivity. Qed.
+
 (* stable sorts by a key: the key component is kept, the payload renamed by ANY function *)
 Section SORT.
   Context {K K' V : Type}.
